@@ -2,3 +2,6 @@ import Lemmas.Sort
 import Lemmas.Key
 import Lemmas.Vector
 import Lemmas.Rank
+import Lemmas.Frame
+import Lemmas.DfSort
+import Lemmas.Group
